@@ -27,7 +27,7 @@ PROP = "C08"
 KF_STALE = "stale-id-after-bridging-capture"
 KF_SNAPREUSE = "snapshot-forgets-closed-tcp-4tuple"
 KF_QUEUED = "queued-payload-flushed-but-not-written"
-REGIMES = ["plain", "dup", "reorder", "udp-only", "udp-collide", "udp-reuse", "udp-reuse", "tcp-only", "tcp-reuse-late", "mixed"]
+REGIMES = ["plain", "dup", "reorder", "udp-only", "udp-collide", "udp-reuse", "udp-reuse", "tcp-only", "tcp-reuse-late", "mixed", "tiecut"]
 
 
 def all_partitions(nf):
@@ -382,7 +382,11 @@ def main(tier, seed, replay=None):
         for i in range(n_main):
             cs = gen_set(rng, "m%d" % i, REGIMES[i % len(REGIMES)])
             mode = rng.choice(["contig", "contig", "flowsplit"])
-            cut_files(rng, cs, mode)
+            if cs.regime == "tiecut":
+                mode = "contig"
+                c05.cut_tiecut(rng, cs)
+            else:
+                cut_files(rng, cs, mode)
             plain_sets.append((cs, schedules(rng, cs, mode, tier)))
         for i in range(n_ooo):
             cs = gen_set(rng, "o%d" % i, ["udp-only", "udp-reuse", "mixed", "udp-only", "reorder"][i % 5])
